@@ -10,16 +10,16 @@ META = {
         "19.c ten-star relation on all 10x10 pairs from element relation and polarity",
         "19.d five combinations (involution, pairs, transformed element)",
         "19.e branches: element, polarity, direction, zodiac animal, ominous direction",
-        "19.f hidden stems main / middle / residual",
+        "19.f hidden stems main / middle / residual; the list form (main, then middle and residual where they exist, tagged with their kind) on engine B",
         "19.g clash, six combinations, harms: involutions on the classical pair sets, transformed element",
         "19.h sixty pillars: stem/branch decomposition, Nayin, decade (Xun), void branches",
         "19.i element generate / overcome as inverse pairs, element <-> direction",
         "19.j zodiac sign for all 366 month-day pairs",
         "19.l eight-character derived signs on all pillar combinations (engine B): foetal origin, foetal breath, own sign (命宫: month number + hour number + sign number = 14 or 26, Five-Tigers stem), body sign (身宫)",
-        "19.k 28 mansions (luminary, zone, animal), nine stars (element, direction, dipper), twelve spirits (yellow/black path)",
+        "19.k 28 mansions (luminary, zone, animal, the nine fields), nine stars (element, direction, dipper), twelve spirits (yellow/black path)",
     ],
     "outside": ["Zone::get_direction and foetus-spirit name strings (generic lookup by name)", "Peng Zu texts, nine-star colours (plain strings)",
-                "28-mansion land / luck tables, foetus-spirit tables: not built in this revision"],
+                "28-mansion luck table, foetus-spirit tables: not built in this revision"],
     "assumptions": [
         "AbstractCulture::index_of as a 32-bit computation for |index| < 2^30 (engine B proves the real one is the mathematical mod for every table size); natively the real function runs",
         "stub fmt_empty for std::fmt::format (error payloads)",
@@ -51,7 +51,33 @@ def engine_b(tier, seed, scr):
     eng, err = engine(scr, "19.l/B/own-sign", "19.l")
     if eng is None:
         return err
-    return [pillars.k_eight_char(eng, k) for k in range(4)]
+    from mir2smt import almanac
+    return [pillars.k_eight_char(eng, k) for k in range(4)] + [almanac.k_hidden_stem_list(eng)]
+
+def fallback_candidates(j):
+    """the finite domains, enumerated — used only to find a concrete witness after the solver has flagged the obligation and its trace run
+    delivered no input values"""
+    b = j.body.split("::")[-1]
+    R = range
+    if b in ("c19a_stem_basic",):
+        return [[s] for s in R(10)]
+    if b == "c19b_terrain":
+        return [[s, e] for s in R(10) for e in R(12)]
+    if b in ("c19c_ten_star", "c19d_stem_combine"):
+        return [[a, c] for a in R(10) for c in R(10)]
+    if b in ("c19e_branch_basic", "c19f_hidden"):
+        return [[e] for e in R(12)]
+    if b == "c19g_branch_relations":
+        return [[a, c] for a in R(12) for c in R(12)]
+    if b == "c19h_pillar":
+        return [[k] for k in R(60)]
+    if b == "c19i_element":
+        return [[e] for e in R(5)]
+    if b == "c19j_constellation":
+        return [[m, d] for m in R(1, 13) for d in R(1, 32)]
+    if b == "c19k_stars":
+        return [[k, 0, 0] for k in R(28)] + [[0, n, 0] for n in R(9)] + [[0, 0, t] for t in R(12)]
+    return []
 
 def describe(j, vals):
     return {"inputs_as_i64": [v if v < (1 << 63) else v - (1 << 64) for v in vals]}
